@@ -71,7 +71,9 @@ def units(tier, seed):
             out.append(dict(kind="dev", cfg=ci, base=bi, fields=[]))
             for k in range(1, d + 1):
                 for fields in combinations(G.FIELDS, k):
-                    out.append(dict(kind="dev", cfg=ci, base=bi, fields=list(fields)))
+                    heavy = k >= 2 and ("sport" in fields or "dport" in fields)
+                    for chunk in (range(4) if heavy else (None,)):
+                        out.append(dict(kind="dev", cfg=ci, base=bi, fields=list(fields), chunk=chunk))
     n = len(struct_items(seed))
     for src in G.PLATFORMS:
         for grouped in (False, True):
@@ -84,6 +86,16 @@ def units(tier, seed):
                 dict(kind="single_ag", src=src), dict(kind="addrgroup", src=src)]
     out.append(dict(kind="standard"))
     out += [dict(kind="siblings", src=src) for src in G.PLATFORMS]
+    # heaviest units first (load balance): weight = product of the alphabet sizes of the fields
+    sizes = {f: len(v) for f, v in G.field_alphabets(seed, "ios", groups=True).items()}
+
+    def weight(u):
+        w = 1
+        for f in u.get("fields", []):
+            w *= sizes.get(f, 3)
+        return -w if u["kind"] == "dev" else 0
+
+    out.sort(key=weight)
     return out
 
 
@@ -390,7 +402,9 @@ def _dev(unit, ctx):
     alph["seq"] = [0, 10, 4294967295]
     pools = [[v for v in alph[f] if v != getattr(base, f)] for f in fields]
     n = 0
-    for combo in product(*pools):
+    for ci_, combo in enumerate(product(*pools)):
+        if unit.get("chunk") is not None and ci_ % 4 != unit["chunk"]:
+            continue
         kw = {f: getattr(base, f) for f in G.FIELDS}
         kw.update(dict(zip(fields, combo)))
         acex = G.AceX(**kw)
